@@ -1,8 +1,8 @@
 (* C04, clause S2: no second HTTP/2 dial while an HTTP/2 attempt to the origin is in flight (outside
    the window of known finding D6).  Relation [R2] between the tracker and the model (in-progress marks,
    waiter queues, dial stages), carried through every primitive on top of the invariant [G] of
-   pool/ProofsC04.v. *)
-From HD Require Import common.Base http.Model pool.Model pool.Spec pool.Frames pool.ProofsLite pool.FramesC05 pool.SortedC05 pool.FramesC04 pool.ProofsC04.
+   pool/ProofsC04a.v. *)
+From HD Require Import common.Base http.Model pool.Model pool.Spec pool.Frames pool.ProofsLite pool.FramesC05 pool.SortedC05 pool.FramesC04 pool.ProofsC04a.
 From HD Require pool.CoreC05 pool.ProofsC04np.
 Local Open Scope list_scope.
 
@@ -1467,7 +1467,7 @@ Proof.
     intros ck. rewrite get_req_set, Nat.eqb_refl. destruct (get_req (upd_conn (fst p) g s) r); cbn; discriminate.
 Qed.
 
-(* what S2 takes from the relation R1 of pool/ProofsC04.v *)
+(* what S2 takes from the relation R1 of pool/ProofsC04a.v *)
 Definition Facts (m0 : mst) (s : state) : Prop :=
   (forall r d, get_dial s r = Some d -> exists x, nth_error (m_reqs (cur m0 s)) r = Some x) /\
   (forall r ck, get_req s r = Some (RCheckout ck) -> g_pool cfg = true -> rtk (cur m0 s) r = k_token ck /\ k_token ck <> 0) /\
@@ -2360,3 +2360,7 @@ Proof.
 Qed.
 
 End S2.
+
+Theorem mon_C04_S2_holds : forall cfg ops, mon_C04_S2 cfg ops (trace cfg ops) = true.
+Proof. intros cfg ops. apply (mon_S2_trace_from cfg ops init m0 (Inv2_init cfg)). Qed.
+Print Assumptions mon_C04_S2_holds.
